@@ -444,7 +444,7 @@ int main(int argc, char** argv) {
         if (rc != 0) { run.harnessError("building the TSan race-pass harness failed: " + out.substr(0, 2000)); }
         else {
             int iters = thorough ? 300 : 40;
-            std::string cmd = "TSAN_OPTIONS='halt_on_error=0 report_signal_unsafe=0 history_size=4' " + run.buildDir + "/bin/C33_tsan " + std::to_string(iters) + " 2>&1";
+            std::string cmd = "TSAN_OPTIONS='halt_on_error=0 report_signal_unsafe=0 history_size=4' timeout -s KILL 900 " + run.buildDir + "/bin/C33_tsan " + std::to_string(iters) + " 2>&1";
             p = popen(cmd.c_str(), "r"); std::string rep;
             while (p && fgets(buf, sizeof buf, p)) rep += buf;
             rc = p ? pclose(p) : -1;
@@ -458,7 +458,9 @@ int main(int argc, char** argv) {
                 if (l.rfind("FREE-RUNS", 0) == 0) freeRuns = atol(l.substr(9).c_str());
             }
             run.extraCoverage["race_pass"] = "{\"runs\": " + std::to_string(freeRuns) + ", \"tsan_reports\": " + std::to_string(reports) + ", \"oracle_failures\": " + std::to_string(freeFails) + "}";
-            if (freeRuns == 0) run.harnessError("TSan race pass produced no runs: " + rep.substr(0, 1500));
+            if (freeRuns == 0 && rc != 0 && rep.find("WARNING: ThreadSanitizer") == std::string::npos && rep.find("FREE-ORACLE-FAIL") == std::string::npos)
+                run.violation("free-run-hang-or-crash", "the free-running pass did not finish within 900 s or crashed (exit status " + std::to_string(rc) + "): a hang here is a deadlock or lost wake-up on the real, unscheduled code", "section=race\ncommand=" + cmd + "\n" + rep.substr(0, 2000));
+            else if (freeRuns == 0) run.harnessError("TSan race pass produced no runs: " + rep.substr(0, 1500));
             if (reports > 0) {
                 std::string where; for (auto& s : sites) where += s + " | ";
                 // key by the anchored file so a different race is still reported
